@@ -528,8 +528,56 @@ func c10RelativeBases(c *Ctx) {
 	}
 }
 
+// c10WithRootChains: ExpandParameterWithRoot / ExpandResponseWithRoot on elements whose $ref chain crosses into a
+// second document (held by the supplied cache) and goes on there with a fragment-only alias, while the root holds
+// namesakes with other content: the element comes out as the second document defines it.
+func c10WithRootChains(c *Ctx) {
+	common := "http://h.example/shared/common.json"
+	rootText := `{"swagger":"2.0","info":{"title":"t","version":"1"},"paths":{},
+		"parameters":{"page":{"$ref":` + quoteJSON(common+"#/parameters/pageSize") + `},"limit":{"name":"limit","in":"query","type":"integer","maximum":1000,"description":"limit of the ROOT"}},
+		"responses":{"err":{"$ref":` + quoteJSON(common+"#/responses/failure") + `},"error":{"description":"error of the ROOT","schema":{"type":"string"}}},
+		"definitions":{"Problem":{"type":"string","description":"Problem of the ROOT"}}}`
+	commonText := `{"parameters":{"pageSize":{"$ref":"#/parameters/limit"},"limit":{"name":"limit","in":"query","type":"integer","maximum":100,"description":"limit of common"}},
+		"responses":{"failure":{"$ref":"#/responses/error"},"error":{"description":"error of common","schema":{"$ref":"#/definitions/Problem"}}},
+		"definitions":{"Problem":{"type":"object","description":"Problem of common"}}}`
+	for _, form := range []string{"typed", "generic"} {
+		var root interface{}
+		if form == "typed" {
+			var sw spec.Swagger
+			_ = json.Unmarshal([]byte(rootText), &sw)
+			root = &sw
+		} else {
+			_ = json.Unmarshal([]byte(rootText), &root)
+		}
+		cache := spec.VerifDefaultCache()
+		var doc interface{}
+		_ = json.Unmarshal([]byte(commonText), &doc)
+		cache.Set(common, doc)
+		p := spec.Parameter{Refable: spec.Refable{Ref: spec.MustCreateRef("#/parameters/page")}}
+		r := spec.Response{Refable: spec.Refable{Ref: spec.MustCreateRef("#/responses/err")}}
+		var e1, e2 error
+		pan := safely(func() {
+			e1 = spec.ExpandParameterWithRoot(&p, root, cache)
+			e2 = spec.ExpandResponseWithRoot(&r, root, cache)
+		})
+		c.Count("with-root-chain:"+form, true)
+		c.Hit("with-root-chain")
+		cs := map[string]interface{}{"root": json.RawMessage(rootText), "cached": map[string]interface{}{common: json.RawMessage(commonText)}, "root-form": form}
+		if pan != "" || e1 != nil || e2 != nil {
+			c.Fail(Failure{Kind: "oracle", Sig: "C08:spurious-error", What: fmt.Sprint("every $ref is resolvable but the call fails: ", e1, e2, pan), Case: cs})
+			continue
+		}
+		pj, _ := json.Marshal(p)
+		rj, _ := json.Marshal(r)
+		if p.Description != "limit of common" || r.Description != "error of common" || r.Schema == nil || r.Schema.Description != "Problem of common" {
+			c.Fail(Failure{Kind: "oracle", Sig: "C10:meaning-changed", What: fmt.Sprintf("an element reached through a second document and a fragment-only alias inside it comes out as %s / %s: not what the second document defines", pj, rj), Case: cs})
+		}
+	}
+}
+
 func runC10(c *Ctx) {
 	c10RelativeBases(c)
+	c10WithRootChains(c)
 	c.Res.Rule = "every definition, parameter and response of random roots (single-document for the *WithRoot / ExpandSchema entry points, multi-document for ExpandSchemaWithBasePath / ExpandParameter / ExpandResponse), expanded through each entry point with a typed root, a generic (map) root, a nil root plus base location, and a pre-filled cache; oracle: the result denotes the same tree as the element in the context of the root (independent unfolding to depth 6), remaining $refs resolve against the root and lie on a cycle, the root document (JSON before/after) and the option structure are unchanged; the proved-sound checker must accept every result; non-trivial = element with at least one reference; distinct by (world, element, entry point)"
 	n := c.N(120, 3000)
 	fams := cacheFamilies()
